@@ -3,6 +3,7 @@ from contracts import formulas as F
 
 from contracts import wrappers as W
 from contracts import core as K
+from contracts import grammar as G_PF
 ID = "C12"
 LEVEL = "proof"
 TRUSTED = ["A1 real arithmetic", "A3 builtins", "A5 attribute resolution", "A6 solvers"]
@@ -10,7 +11,7 @@ EXPLANATION = ('Deductive: natural_mass_ratio (loop over atoms cut at two SumOve
 
 
 def units(tier):
-    return (([F.U_ION_MASS, F.U_NAT_RATIO, F.U_NATDENS_GET, F.U_NATDENS_SET] + F.U_INIT + F.U_CELL_VOLUME + [F.U_CELL_VOLUME_MISSING] + F.U_VOLUME + [F.U_SUBSTITUTION] + F.U_FORMULA_OF_FORMULA) + W.U_FORMULA_REPLACE) + [K.L_ATOM_IDENTITY] + F.U_FORMULA_KINDS_NATURAL + F.U_FORMULA_STRING
+    return (([F.U_ION_MASS, F.U_NAT_RATIO, F.U_NATDENS_GET, F.U_NATDENS_SET] + F.U_INIT + F.U_CELL_VOLUME + [F.U_CELL_VOLUME_MISSING] + F.U_VOLUME + [F.U_SUBSTITUTION] + F.U_FORMULA_OF_FORMULA) + W.U_FORMULA_REPLACE) + [K.L_ATOM_IDENTITY] + F.U_FORMULA_KINDS_NATURAL + F.U_FORMULA_STRING + G_PF.U_PARSE_FORMULA
 
 
 def runner_tasks(tier):
